@@ -280,8 +280,18 @@ def apply_op(c, op):
             if w.name not in names_inside:  # w neither captured nor otherwise named inside
                 inner_vals = [o for n in sg for o in n.outputs if o.name and not o.is_initializer()]
                 if inner_vals:
-                    inner_vals[(b + d) % len(inner_vals)].name = w.name
+                    iv = inner_vals[(b + d) % len(inner_vals)]
+                    iv.name = w.name
                     c.flags.add("shadowing")
+                    if c.model.ir_version >= 11 and d % 2 and iv.producer() is not None:
+                        # ... and its producer is annotated on it: the reference is by identity, the wire format by name
+                        cfgs = list(c.model.device_configurations) or [c.model.add_device_configuration(c.fresh("cfg"), num_devices=2)]
+                        pn = iv.producer()
+                        try:
+                            pn.shard(iv, configuration=cfgs[b % len(cfgs)], axis=0, num_shards=2) if (iv.shape is None or len(iv.shape) >= 1) else pn.set_pipeline_stage(cfgs[0], 1)
+                            c.flags.add("annotation_on_shadowing_value")
+                        except ValueError:
+                            pass
 
 
     elif k == 17 and nodes:  # an input of a node nested at any depth (GRAPH or GRAPHS attribute) is rewired to an outer value
